@@ -1144,28 +1144,41 @@ func (x *Exec) sendStmt(f *frame, v *ssa.Send, st *State) {
 
 // logSend: ghost log "send" gets one entry (fields send.chan, send.val) when cond holds.
 func (x *Exec) logSend(st *State, cond string, ch, val *Val) {
+	x.logChanOp(st, "send", cond, ch, val)
+}
+
+// logChanOp: ghost log `name` ("send" / "recv") gets one entry when cond holds: fields <name>.chan,
+// <name>.val (scalar values), <name>.ref / <name>.len (slice values: backing array and length).
+func (x *Exec) logChanOp(st *State, name string, cond string, ch, val *Val) {
 	if x.spec > 0 {
 		return
 	}
-	nk, ek := x.logKeys("send")
+	nk, ek := x.logKeys(name)
 	n := x.use(x.heapSym(st, nk, x.keyInfo[nk]))
 	e := x.use(x.heapSym(st, ek, x.keyInfo[ek]))
 	x.sc.assume("(>= " + n + " 0)")
 	id := x.alloc(st)
 	x.setHeap(st, ek, x.keyInfo[ek], ite(cond, sto(e, n, id), e))
 	x.setHeap(st, nk, x.keyInfo[nk], ite(cond, "(+ "+n+" 1)", n))
-	for _, fn := range []string{"gf_send_chan", "gf_send_val"} {
+	for _, fn := range []string{"gf_" + name + "_chan", "gf_" + name + "_val", "gf_" + name + "_ref", "gf_" + name + "_len"} {
 		if !x.sc.decl[fn] {
 			x.sc.decl[fn] = true
 			x.sc.ufDecls = append(x.sc.ufDecls, fmt.Sprintf("(declare-fun %s (Int) %s)", fn, bvSort(64)))
 		}
 	}
 	x.sc.bridge[64] = true
-	cb := "(bvof64 " + ch.S + ")"
-	x.sc.assume(implies(cond, eq("(gf_send_chan "+id+")", cb)))
-	x.sc.assume(implies(and("(<= 0 "+ch.S+")", "(< "+ch.S+" 4611686018427387904)"), eq("(nat64 "+cb+")", ch.S)))
+	intField := func(f string, t string) {
+		b := "(bvof64 " + t + ")"
+		x.sc.assume(implies(cond, eq("(gf_"+name+"_"+f+" "+id+")", b)))
+		x.sc.assume(implies(and("(<= 0 "+t+")", "(< "+t+" 4611686018427387904)"), eq("(nat64 "+b+")", t)))
+	}
+	intField("chan", ch.S)
 	if val.K == KScalar && strings.HasPrefix(val.Srt, "(_ BitVec") {
-		x.sc.assume(implies(cond, eq("(gf_send_val "+id+")", x.convNum(val.S, val.Srt, bvSort(64), false, false))))
+		x.sc.assume(implies(cond, eq("(gf_"+name+"_val "+id+")", x.convNum(val.S, val.Srt, bvSort(64), false, false))))
+	}
+	if val.K == KSlice && len(val.E) >= 3 && val.E[0].Srt == "Int" && val.E[2].Srt == "Int" {
+		intField("ref", val.E[0].S)
+		intField("len", val.E[2].S)
 	}
 }
 
